@@ -378,8 +378,8 @@ def l1_runs(v, runs, tag, stats, scope=None, sync_rule=None):
         os.remove(tf)
 
 
-L1_GEN_MAX = 6000       # behaviours recorded per (configuration, profile): a recorded behaviour is ~200 trace lines
-L1_GEN_CHUNK = 1500     # ... per TLC run (Trace_Page holds the whole trace in memory)
+L1_GEN_MAX = 2000       # behaviours recorded per (configuration, profile): a recorded behaviour is ~200 trace lines
+L1_GEN_CHUNK = 1000     # ... per TLC run (Trace_Page holds the whole trace in memory)
 
 
 def l1_gens(v, gens, tag, stats, scope=None, sync_rule=None):
